@@ -394,6 +394,27 @@ def c01_cases(seed, n, tier, replay=None):
                               "opts": {"has_impl": False, "hooks": True}})
                 meta[cid] = {"source": "derived_name:" + label, "settings": cases[-1]["settings"], "settings_sig": "small",
                              "history_kind": hk + (":" + ">".join(order) if order else ""), "supported": False, "doc": doc}
+    # member defaults inside struct variants of a union, with the struct variant before / after data-less, newtype and tuple variants
+    vd = {"flag": {"type": "boolean", "default": True}, "n": {"type": "integer", "default": 5},
+          "nz": {"type": "integer", "minimum": 1, "default": 3}, "neg": {"type": "integer", "format": "int32", "default": -2},
+          "s": {"type": "string", "default": "x"}}
+    k_ = 0
+    for members in (["flag"], ["n"], ["nz"], ["neg", "s"], list(vd)):
+        sv = {"type": "object", "required": ["Cfg"], "additionalProperties": False,
+              "properties": {"Cfg": {"type": "object", "properties": {m_: vd[m_] for m_ in members}}}}
+        others = [{"type": "string", "enum": ["Off"]},
+                  {"type": "object", "required": ["Num"], "properties": {"Num": {"type": "integer"}}, "additionalProperties": False},
+                  {"type": "object", "required": ["Pair"], "additionalProperties": False,
+                   "properties": {"Pair": {"type": "array", "items": [{"type": "integer"}, {"type": "string"}], "minItems": 2, "maxItems": 2}}}]
+        for pos in (0, 1, 3):
+            branches = others[:pos] + [sv] + others[pos:]
+            doc = {"definitions": {"Mode": {"oneOf": branches}}}
+            cid = "v%03d" % k_
+            k_ += 1
+            st = {"struct_builder": k_ % 2 == 0}
+            cases.append({"id": cid, "settings": st, "history": [{"op": "root", "schema": doc}], "opts": {"has_impl": False, "hooks": True}})
+            meta[cid] = {"source": "variant_defaults:%s@%d" % ("+".join(members), pos), "settings": st, "settings_sig": "small",
+                         "history_kind": "root", "supported": False, "doc": doc}
     # map-typed members: every key constraint x value kind x required/optional/defaulted, under each map type
     key_kinds = {"plain": {}, "names_pattern": {"propertyNames": {"pattern": "^[a-z]+$"}},
                  "names_len": {"propertyNames": {"maxLength": 8}}, "names_ref": {"propertyNames": {"$ref": "#/definitions/Key"}},
